@@ -284,6 +284,7 @@ def correspond_vectors(run, tier, rng):
                     cases.append((list(per), list(ref), u))
     items = []
     impl = []
+    kept = []
     for per, ref, u in cases:
         p = np.array(per, dtype=int) if per else None
         r = np.array(ref, dtype=int) if ref else None
@@ -292,13 +293,18 @@ def correspond_vectors(run, tier, rng):
             r = np.array(ref, dtype=int)
         arr = np.array(u, dtype=float)
         before = arr.copy()
-        out = apply_boundary_conditions(arr, p, r)
-        if arr.tobytes() != before.tobytes():
-            run.fail("input-mutated", "apply_boundary_conditions modified its argument", u=u, periodic=per, reflective=ref)
-        cb_in = bool(check_bounds(arr, p, r))
-        cb_out = bool(check_bounds(out, p, r))
-        out2d = apply_boundary_conditions(np.array([u, u]), p, r)
-        cb2 = check_bounds(np.array([u, u]), p, r)
+        try:
+            out = apply_boundary_conditions(arr, p, r)
+            if arr.tobytes() != before.tobytes():
+                run.fail("input-mutated", "apply_boundary_conditions modified its argument", u=u, periodic=per, reflective=ref)
+            cb_in = bool(check_bounds(arr, p, r))
+            cb_out = bool(check_bounds(out, p, r))
+            out2d = apply_boundary_conditions(np.array([u, u]), p, r)
+            cb2 = check_bounds(np.array([u, u]), p, r)
+        except Exception as e:
+            run.fail("batch-raises", f"boundary routines raised {type(e).__name__}: {e} on a point / a 2-row batch of dimension {len(u)}",
+                     u=[float(x).hex() for x in u], periodic=per, reflective=ref)
+            continue
         if out2d[0].tobytes() != out.tobytes() or out2d[1].tobytes() != out.tobytes() or bool(cb2[0]) != cb_in \
                 or bool(cb2[1]) != cb_in:
             run.fail("1d-2d-differ", "1-D and row-wise 2-D results differ", u=u, periodic=per, reflective=ref)
@@ -311,6 +317,7 @@ def correspond_vectors(run, tier, rng):
             if j not in per and j not in ref and np.float64(out[j]).tobytes() != np.float64(x).tobytes():
                 run.fail("untouched-changed", "non-designated coordinate changed", u=u, periodic=per, reflective=ref)
         impl.append((list(map(float, out)), cb_in, cb_out))
+        kept.append((per, ref, u))
         run.case(key=(tuple(per), tuple(ref), tuple(u)))
         items.append(
             f"(fsame_list (apply_bcF {natlist(per)} {natlist(ref)} {flist(u)}) {flist(out)} "
@@ -332,9 +339,74 @@ Eval vm_compute in bad res 0.
         run.broken.append(("correspondence-coqc", out[-1500:]))
         return
     for j in parse_evals(out)[0]:
-        per, ref, u = cases[j]
+        per, ref, u = kept[j]
         run.disagree("apply_boundary_conditions/check_bounds vector: implementation vs binary64 model",
                      periodic=per, reflective=ref, u=[float(x).hex() for x in u], impl=impl[j])
+
+
+def batch_probe(run, tier, rng):
+    """check_bounds / apply_boundary_conditions on 2-D batches of every shape (rows <, =, > columns): row by row they are the
+    1-D functions."""
+    from tempest.mcmc import apply_boundary_conditions, check_bounds
+    pool = [0.0, 1.0, 0.25, 1.0000000000000002, -5e-324, 1.5, -0.75, 2.0, 0.9999999999999999]
+    for rows, d in [(1, 3), (2, 3), (2, 5), (3, 2), (5, 2), (4, 4), (7, 1), (1, 1)]:
+        idxs = list(range(d))
+        for _ in range(3 if tier == "quick" else 20):
+            per = [i for i in idxs if rng.random() < 0.35]
+            ref = [i for i in idxs if i not in per and rng.random() < 0.35]
+            U = np.array([[rng.choice(pool) if rng.random() < 0.6 else rng.uniform(-2, 3) for _ in range(d)] for _ in range(rows)])
+            p = np.array(per, dtype=int) if per else None
+            r = np.array(ref, dtype=int) if ref else None
+            what = dict(shape=[rows, d], periodic=per, reflective=ref, batch=U.tolist())
+            run.case(key=("batch", rows, d, tuple(per), tuple(ref)), nontrivial=rows != d)
+            try:
+                got_cb = np.asarray(check_bounds(U, p, r))
+                got_bc = apply_boundary_conditions(U, p, r)
+                want_cb = np.array([bool(check_bounds(U[i], p, r)) for i in range(rows)])
+                want_bc = np.array([apply_boundary_conditions(U[i], p, r) for i in range(rows)])
+            except Exception as e:
+                run.fail("batch-raises", f"boundary routines raised {type(e).__name__} on a batch of shape {rows}x{d}: {e}", **what)
+                continue
+            if got_cb.shape != (rows,) or np.any(got_cb != want_cb):
+                run.fail("check-bounds-wrong", f"check_bounds on a {rows}x{d} batch returns {got_cb.tolist()}, row by row it is {want_cb.tolist()}", **what)
+            if got_bc.shape != U.shape or not np.array_equal(got_bc, want_bc):
+                run.fail("batch-map-differs", f"apply_boundary_conditions on a {rows}x{d} batch differs from its row-by-row application", **what)
+
+
+def plumbing_probe(run, tier, rng):
+    """The coordinates the user designates are the ones the kernel wraps / folds: the periodic and reflective lists given to the
+    Sampler (and to parallel_mcmc) must reach the RWM runner unchanged and unswapped; the tpCN runner must end up with none."""
+    import tempest.mcmc as mc
+    from tempest import Sampler
+    seen = []
+    orig_run = mc.BaseMCMCRunner.run
+
+    def spy(self):
+        seen.append((type(self).__name__, None if self.periodic is None else [int(v) for v in self.periodic],
+                     None if self.reflective is None else [int(v) for v in self.reflective]))
+        return orig_run(self)
+    mc.BaseMCMCRunner.run = spy
+    try:
+        for kind in ("rwm", "tpcn"):
+            for per, ref in (([0], [2]), ([1, 2], [0]), ([2], None), (None, [1])):
+                del seen[:]
+                kw = {}
+                if per is not None:
+                    kw["periodic"] = per
+                if ref is not None:
+                    kw["reflective"] = ref
+                s = Sampler(lambda u: 4 * u - 2, lambda x: -0.5 * float(np.sum(x ** 2)), n_dim=3, n_particles=12, sample=kind,
+                            clustering=False, random_state=3, **kw)
+                s.run(n_total=12, progress=False)
+                run.case(key=("plumbing", kind, str(per), str(ref)), nontrivial=True)
+                want = (per, ref) if kind == "rwm" else (None, None)
+                bad = [t for t in seen if (t[1], t[2]) != want]
+                if not seen or bad:
+                    run.fail("designation-does-not-reach-the-kernel", f"Sampler(sample={kind!r}, periodic={per}, reflective={ref}): the runner works with "
+                             f"periodic={bad[0][1] if bad else None}, reflective={bad[0][2] if bad else None} (expected {want})",
+                             kernel=kind, periodic=per, reflective=ref)
+    finally:
+        mc.BaseMCMCRunner.run = orig_run
 
 
 def search(run):
@@ -366,6 +438,8 @@ def main(tier, seed):
     try:
         correspond_scalar(run, tier, rng)
         correspond_vectors(run, tier, rng)
+        batch_probe(run, tier, rng)
+        plumbing_probe(run, tier, rng)
     except Exception:
         import traceback
         run.broken.append(("harness-exception", traceback.format_exc()[-1500:]))
